@@ -64,9 +64,11 @@ def harness(tier, seed):
     for _ in range(reps):
         k = rng.randint(2, 9)
         data = [rng.randint(-6, 6) for _ in range(k)]
-        kind = rng.choice(["abs", "absabs", "sq"])
+        kind = rng.choice(["abs", "absabs", "sq", "absabs+1"])
+        # "absabs+1" is the distance function of the package's own doc-string example: positive everywhere, also for an
+        # object and itself - nothing may be merged then, not even the same object occurring twice
         fdist = {"abs": lambda a, b: abs(a - b), "absabs": lambda a, b: abs(abs(a) - abs(b)),
-                 "sq": lambda a, b: (a - b) ** 2 / 2.0}[kind]
+                 "sq": lambda a, b: (a - b) ** 2 / 2.0, "absabs+1": lambda a, b: abs(abs(a) - abs(b)) + 1}[kind]
         power = rng.choice([1, 2, 3, 1.5])
         horizon = rng.choice([1, 2, 3, 100])
         info = {"data": data, "distance": kind, "flow_power": power, "horizon": horizon}
@@ -185,6 +187,6 @@ def harness(tier, seed):
     return {"name": "order1d", "evaluations": evals, "distinct_nontrivial": distinct,
             "rule": f"swap_distance vs breadth-first minimum number of transpositions for ALL permutations of length 1..{nmax} "
                     "(exhaustive against the identity, relabelled pairs sampled); generated integer sequences with duplicates/ties "
-                    "x 3 distance functions x flow powers x horizons for the instance clauses; "
+                    "x 4 distance functions (one of them positive for identical objects) x flow powers x horizons for the instance clauses; "
                     "instances with 127..257 distinct objects (storage-type boundaries) for the same clauses",
             "samples": samples, "violations": viol, "exhaustive": True}
